@@ -17,11 +17,14 @@ import (
 	"errors"
 	"fmt"
 	"os"
+	"os/exec"
 	"path/filepath"
 	"regexp"
+	"runtime"
 	"sort"
 	"strconv"
 	"strings"
+	"sync"
 	"time"
 
 	. "vh/kit"
@@ -29,6 +32,7 @@ import (
 	"github.com/notaryproject/notation-core-go/signature"
 	"github.com/notaryproject/notation-go"
 	"github.com/notaryproject/notation-go/dir"
+	nlog "github.com/notaryproject/notation-go/log"
 	"github.com/notaryproject/notation-go/verifier"
 	"github.com/notaryproject/notation-go/verifier/trustpolicy"
 	"github.com/notaryproject/notation-go/verifier/truststore"
@@ -73,9 +77,56 @@ type recStore struct {
 	calls []StoreKey
 }
 
+// callLogKey: a concurrent call carries its own call log in its context
+type callLogKey struct{}
+
 func (r *recStore) GetCertificates(ctx context.Context, t truststore.Type, n string) ([]*x509.Certificate, error) {
+	if l, ok := ctx.Value(callLogKey{}).(*[]StoreKey); ok {
+		*l = append(*l, StoreKey{Type: t, Name: n})
+		runtime.Gosched() // let another goroutine run inside the window
+		defer runtime.Gosched()
+		return r.inner.GetCertificates(ctx, t, n)
+	}
 	r.calls = append(r.calls, StoreKey{Type: t, Name: n})
 	return r.inner.GetCertificates(ctx, t, n)
+}
+
+// yieldLogger is a context logger whose every call yields the processor
+type yieldLogger struct{}
+
+func (yieldLogger) Debug(args ...interface{})                 { runtime.Gosched() }
+func (yieldLogger) Debugf(format string, args ...interface{}) { runtime.Gosched() }
+func (yieldLogger) Debugln(args ...interface{})               { runtime.Gosched() }
+func (yieldLogger) Info(args ...interface{})                  { runtime.Gosched() }
+func (yieldLogger) Infof(format string, args ...interface{})  { runtime.Gosched() }
+func (yieldLogger) Infoln(args ...interface{})                { runtime.Gosched() }
+func (yieldLogger) Warn(args ...interface{})                  { runtime.Gosched() }
+func (yieldLogger) Warnf(format string, args ...interface{})  { runtime.Gosched() }
+func (yieldLogger) Warnln(args ...interface{})                { runtime.Gosched() }
+func (yieldLogger) Error(args ...interface{})                 { runtime.Gosched() }
+func (yieldLogger) Errorf(format string, args ...interface{}) { runtime.Gosched() }
+func (yieldLogger) Errorln(args ...interface{})               { runtime.Gosched() }
+
+// obsOpt: how a concurrent call is observed (own context, own call log, own sink)
+type obsOpt struct {
+	ctx   context.Context
+	calls *[]StoreKey
+	sink  func(in, obs string, nontriv bool, frame []string)
+}
+
+// concRecord is what the child process of the concurrency family reports for one call
+type concRecord struct {
+	In      string   `json:"in"`
+	Obs     string   `json:"obs"`
+	Nontriv bool     `json:"nontrivial"`
+	Case    *c03Case `json:"case"`
+	Anomaly string   `json:"anomaly,omitempty"`
+	Frame   []string `json:"frame,omitempty"`
+}
+
+type concReport struct {
+	Calls   int          `json:"calls"`
+	Records []concRecord `json:"records"`
 }
 
 // ---------- environments ----------
@@ -375,7 +426,7 @@ func runC03(a *Args) error {
 		}
 		return ss
 	}
-	observe := func(my int64, c *c03Case, ss *session, emit bool) {
+	observe := func(my int64, c *c03Case, ss *session, emit bool, opt *obsOpt) {
 		e := envs[c.Chain]
 		c.ChainID = e.ids
 		scheme := schemes[0]
@@ -387,7 +438,12 @@ func runC03(a *Args) error {
 		}
 		ekey := c.Format + "|" + string(scheme) + "|" + strconv.Itoa(c.TS)
 		inner, rec, selIdx, v := ss.inner, ss.rec, ss.selIdx, ss.v
-		rec.calls = nil
+		vctx := context.Background()
+		if opt == nil {
+			rec.calls = nil
+		} else {
+			vctx = opt.ctx
+		}
 		finalStores := func(i int) []string {
 			if i == selIdx && c.Mutate != nil {
 				return c.Mutate
@@ -475,7 +531,11 @@ func runC03(a *Args) error {
 			poolRaw = append(poolRaw, pc.Raw)
 		}
 		opts := notation.VerifierVerifyOptions{ArtifactReference: c.Repo + digestPart, SignatureMediaType: c.Format, PluginConfig: ss.pluginCfg, UserMetadata: ss.userMeta}
-		outcome, verr := v.Verify(context.Background(), desc, e.env[ekey], opts)
+		outcome, verr := v.Verify(vctx, desc, e.env[ekey], opts)
+		madeCalls := rec.calls
+		if opt != nil {
+			madeCalls = *opt.calls
+		}
 		var frame []string
 		if d, _ := json.Marshal(ss.doc); !bytes.Equal(d, snapDoc) {
 			frame = append(frame, "trust policy document")
@@ -519,11 +579,13 @@ func runC03(a *Args) error {
 		if !emit {
 			return
 		}
-		for _, what := range frame {
-			w.ImplViolation(my, "library mutated caller-owned "+what, c, "frame:"+strings.ReplaceAll(what, " ", "-"))
+		if opt == nil {
+			for _, what := range frame {
+				w.ImplViolation(my, "library mutated caller-owned "+what, c, "frame:"+strings.ReplaceAll(what, " ", "-"))
+			}
+			w.Count("frame_check", fmt.Sprint(len(frame) == 0))
+			w.Count("shared_option_objects", fmt.Sprint(ss.shared))
 		}
-		w.Count("frame_check", fmt.Sprint(len(frame) == 0))
-		w.Count("shared_option_objects", fmt.Sprint(ss.shared))
 		// observation
 		authTerm := "None"
 		c.Auth = "absent"
@@ -559,7 +621,7 @@ func runC03(a *Args) error {
 			}
 		}
 		var callTerms []string
-		for _, k := range rec.calls {
+		for _, k := range madeCalls {
 			callTerms = append(callTerms, CPair(CStr(string(k.Type)), CStr(k.Name)))
 			c.Calls = append(c.Calls, string(k.Type)+":"+k.Name)
 		}
@@ -600,6 +662,10 @@ func runC03(a *Args) error {
 			}
 		}
 		nontriv := c.Auth != "absent" && placed
+		if opt != nil {
+			opt.sink(in, obs, nontriv, frame)
+			return
+		}
 		w.Add(my, term, c, in, nontriv)
 		w.Count("family", c.Family)
 		w.Count("chain", c.Chain)
@@ -611,7 +677,7 @@ func runC03(a *Args) error {
 		w.Count("n_statements", strconv.Itoa(len(c.Stmts)))
 		w.Count("n_calls", strconv.Itoa(len(c.Calls)))
 		tsaCalled := false
-		for _, k := range rec.calls {
+		for _, k := range madeCalls {
 			if k.Type == truststore.TypeTSA {
 				tsaCalled = true
 			}
@@ -627,7 +693,7 @@ func runC03(a *Args) error {
 		if !w.Want(my) {
 			return
 		}
-		observe(my, c, setup(my, c), true)
+		observe(my, c, setup(my, c), true, nil)
 	}
 	// a history: ONE verifier and ONE trust store object, several Verify calls in sequence;
 	// between calls the store content, the scheme, the chain and the repository change.
@@ -652,9 +718,140 @@ func runC03(a *Args) error {
 				fillMock(ss.mock, steps[k].Stores)
 			}
 			steps[k].Before = append([]string(nil), before...)
-			observe(first+int64(k), steps[k], ss, w.Want(first+int64(k)))
+			observe(first+int64(k), steps[k], ss, w.Want(first+int64(k)), nil)
 			before = append(before, fmt.Sprintf("chain=%s sa=%v repo=%s auth=%s", steps[k].Chain, steps[k].SA, steps[k].Repo, steps[k].Auth))
 		}
+	}
+
+	// ---------- concurrency: ONE verifier shared by goroutines (runs in a child process) ----------
+	runConc := func() *concReport {
+		const K = 8
+		N := 250
+		if a.Tier == "thorough" {
+			N = 1500
+		}
+		n3e, n2e, n4e := envs["n3"], envs["n2"], envs["n4"]
+		noiseC := []int64{n3e.twins[0], idUnrelRoot}
+		stores := []storeDesc{
+			{Type: "ca", Name: "c0", Certs: append([]int64{n3e.ids[2]}, noiseC...)},
+			{Type: "signingAuthority", Name: "c0", Certs: noiseC},
+			{Type: "signingAuthority", Name: "c1", Certs: noiseC},
+			{Type: "ca", Name: "c2", Certs: []int64{n2e.ids[1]}, Fail: true},
+			{Type: "ca", Name: "c3a", Certs: noiseC},
+			{Type: "ca", Name: "c3b", Certs: []int64{idUnrelLeaf, n3e.ids[1]}},
+			{Type: "signingAuthority", Name: "c3b", Certs: []int64{n2e.ids[1]}},
+			{Type: "tsa", Name: "t", Certs: []int64{idTSARoot, n3e.ids[2]}},
+			{Type: "ca", Name: "c6", Certs: []int64{n4e.ids[3]}},
+			{Type: "signingAuthority", Name: "c6", Certs: []int64{n4e.ids[0]}},
+			{Type: "signingAuthority", Name: "c7", Certs: []int64{n3e.ids[2]}},
+			{Type: "ca", Name: "c7", Certs: []int64{n3e.twins[1]}},
+		}
+		lists := [][]string{
+			{"ca:c0"},
+			{"signingAuthority:c1", "ca:c0"},
+			{"ca:c3a", "ca:c2", "ca:c0"},
+			{"ca:c3a", "ca:c3b", "signingAuthority:c3b"},
+			{"ca:c0", "tsa:t"},
+			{"tsa:t", "ca:c0", "ca:c0", "signingAuthority:c0"},
+			{"ca:c6", "signingAuthority:c6"}, // the wildcard statement
+			{"signingAuthority:c7", "ca:c7"},
+		}
+		var stmts []stmtDesc
+		for g := 0; g < K; g++ {
+			st := stmtDesc{Name: "g" + strconv.Itoa(g), Scopes: []string{"reg.example/conc" + strconv.Itoa(g)}, Stores: lists[g], Level: []string{"strict", "audit", "permissive"}[g%3]}
+			if g == 6 {
+				st.Scopes = []string{"*"}
+			}
+			stmts = append(stmts, st)
+		}
+		chains := []string{"n3", "n3", "n2", "n3", "n3", "n3", "n4", "n3"}
+		// every goroutine alternates between two inputs of its own (same statement, both schemes)
+		inputs := make([][2]*c03Case, K)
+		for g := 0; g < K; g++ {
+			for v := 0; v < 2; v++ {
+				c := &c03Case{Family: "concurrent", Chain: chains[g], Format: formats[(g+v)%2], SA: (g+v)%2 == 1, TS: (g + v) % 2, Repo: "reg.example/conc" + strconv.Itoa(g),
+					Stmts: stmts, Stores: stores, Labels: []string{fmt.Sprintf("goroutine-%d-input-%d", g, v)}}
+				if g == 5 {
+					c.SA, c.TS = false, 1-v // notary.x509 with and without a countersignature: tsa store on the timestamp path
+				}
+				if g == 6 {
+					c.Repo = "reg.example/none"
+				}
+				inputs[g][v] = c
+			}
+		}
+		call := func(ss *session, c *c03Case) (in, obs string, nontriv bool, frame []string, cc *c03Case) {
+			x := *c
+			x.Labels = append([]string(nil), c.Labels...)
+			x.Calls = nil
+			calls := []StoreKey{}
+			ctx := context.WithValue(nlog.WithLogger(context.Background(), yieldLogger{}), callLogKey{}, &calls)
+			observe(0, &x, ss, true, &obsOpt{ctx: ctx, calls: &calls, sink: func(i, o string, nt bool, fr []string) { in, obs, nontriv, frame = i, o, nt, fr }})
+			return in, obs, nontriv, frame, &x
+		}
+		newSession := func() *session {
+			ss := setup(0, inputs[0][0])
+			ss.shared = true
+			ss.userMeta = map[string]string{"c03.meta": "v"}
+			ss.pluginCfg = map[string]string{"cfg": "x", "other": "y"}
+			return ss
+		}
+		// reference: every input alone, on a verifier of its own
+		ref := make([][2]string, K)
+		rep := &concReport{}
+		for g := 0; g < K; g++ {
+			for v := 0; v < 2; v++ {
+				in, obs, nt, fr, cc := call(newSession(), inputs[g][v])
+				ref[g][v] = obs
+				cc.Labels = append(cc.Labels, "sequential-reference")
+				rep.Records = append(rep.Records, concRecord{In: in, Obs: obs, Nontriv: nt, Case: cc, Frame: fr})
+			}
+		}
+		shared := newSession()
+		var mu sync.Mutex
+		anomalies := 0
+		start := make(chan struct{})
+		var wg sync.WaitGroup
+		for g := 0; g < K; g++ {
+			wg.Add(1)
+			go func(g int) {
+				defer wg.Done()
+				<-start
+				for j := 0; j < N; j++ {
+					v := j % 2
+					in, obs, nt, fr, cc := call(shared, inputs[g][v])
+					bad := ""
+					if obs != ref[g][v] {
+						bad = fmt.Sprintf("concurrent use of one verifier: call %d of goroutine %d observed %s, the same input alone gives %s", j, g, obs, ref[g][v])
+					} else if len(fr) > 0 {
+						bad = "concurrent use of one verifier: library mutated caller-owned " + strings.Join(fr, ", ")
+					}
+					mu.Lock()
+					rep.Calls++
+					if bad != "" {
+						anomalies++
+						if anomalies <= 12 {
+							cc.Labels = append(cc.Labels, fmt.Sprintf("overlapping-call-%d", j))
+							rep.Records = append(rep.Records, concRecord{In: in, Obs: obs, Nontriv: nt, Case: cc, Anomaly: bad, Frame: fr})
+						}
+					} else if j < 2 || j == N/2 || j >= N-2 {
+						cc.Labels = append(cc.Labels, fmt.Sprintf("overlapping-call-%d", j))
+						rep.Records = append(rep.Records, concRecord{In: in, Obs: obs, Nontriv: nt, Case: cc})
+					}
+					mu.Unlock()
+				}
+			}(g)
+		}
+		close(start)
+		wg.Wait()
+		return rep
+	}
+	if outFile := os.Getenv("C03_CONC_CHILD"); outFile != "" {
+		b, err := json.Marshal(runConc())
+		if err != nil {
+			return err
+		}
+		return os.WriteFile(outFile, b, 0o644)
 	}
 
 	levels := []string{"strict", "permissive", "audit"}
@@ -1340,6 +1537,54 @@ func runC03(a *Args) error {
 			steps = append(steps, snapshot(h, hk, lvl, lab))
 		}
 		runHistory(steps)
+	}
+	// ---------- family 9: concurrent use of ONE verifier (child process; last family: ids are stable before it) ----------
+	firstConc := id
+	if a.Only < 0 || a.Only >= firstConc {
+		exe, err := os.Executable()
+		if err != nil {
+			return err
+		}
+		outFile := filepath.Join(a.Out, "conc_report.json")
+		ctx, cancel := context.WithTimeout(context.Background(), 150*time.Second)
+		cmd := exec.CommandContext(ctx, exe, "--tier", a.Tier, "--seed", strconv.FormatUint(a.Seed, 10), "--out", filepath.Join(a.Out, "conc_child"), "--repo", a.Repo)
+		cmd.Env = append(os.Environ(), "C03_CONC_CHILD="+outFile)
+		out, runErr := cmd.CombinedOutput()
+		cancel()
+		os.RemoveAll(filepath.Join(a.Out, "conc_child"))
+		var rep concReport
+		b, readErr := os.ReadFile(outFile)
+		if runErr == nil && readErr == nil {
+			readErr = json.Unmarshal(b, &rep)
+		}
+		if runErr != nil || readErr != nil {
+			what := "exit: " + fmt.Sprint(runErr)
+			for _, line := range strings.Split(string(out), "\n") {
+				if strings.Contains(line, "fatal error") || strings.HasPrefix(line, "panic:") {
+					what = strings.TrimSpace(line)
+					break
+				}
+			}
+			my := id
+			id++
+			w.ImplViolation(my, "8 goroutines sharing one verifier: the process died ("+what+")", map[string]any{"family": "concurrent", "output_tail": Short(string(out), 3000)}, "concurrency:crash")
+			w.Count("family", "concurrent-crash")
+		}
+		w.Set("concurrent_calls_on_one_verifier", rep.Calls)
+		for _, r := range rep.Records {
+			my := id
+			id++
+			if !w.Want(my) {
+				continue
+			}
+			w.Add(my, CApp("mk_case", CN(my), r.In, r.Obs), r.Case, r.In+r.Obs, r.Nontriv)
+			w.Count("family", "concurrent")
+			w.Count("obs_auth", strings.SplitN(r.Case.Auth, ":", 2)[0])
+			if r.Anomaly != "" {
+				w.ImplViolation(my, r.Anomaly, r.Case, "concurrency:wrong-result")
+				w.Count("concurrent_anomaly", "true")
+			}
+		}
 	}
 	return w.Close()
 }
